@@ -33,8 +33,33 @@ fn main() {
         let mut g = AGen { d: DGen { rng: rng.fork(), risky: false }, nblocks: 0 };
         g.d.risky = g.d.rng.chance(1, 2);
         let nb = 1 + g.d.rng.below(3) as usize;
-        let blocks: Vec<ABlock> = (0..nb).map(|i| g.block(i)).collect();
-        let a = g.authorizer();
+        let mut blocks: Vec<ABlock> = (0..nb).map(|i| g.block(i)).collect();
+        let mut a = g.authorizer();
+        if all.len() % 3 == 0 {
+            // a derivation chain that crosses blocks (several trust groups): ch0(1) in the
+            // authority block, block i derives ch<i+1> from ch<i>, the authorizer the last link
+            let v = |x: u32| DTerm::Var(x);
+            let pr = |n: String, a: Vec<DTerm>| DPred { name: n, args: a };
+            blocks[0].facts.push(("ch0".into(), vec![V::Int(1)]));
+            for (bi, b) in blocks.iter_mut().enumerate() {
+                b.rules.push(ARule {
+                    rule: DRule {
+                        head: pr(format!("ch{}", bi + 1), vec![v(0)]),
+                        body: vec![pr(format!("ch{}", bi), vec![v(0)])],
+                        exprs: vec![],
+                    },
+                    scopes: if bi == 0 { vec![] } else { vec![Sc::Previous] },
+                });
+            }
+            a.rules.push(ARule {
+                rule: DRule {
+                    head: pr("chz".into(), vec![v(0)]),
+                    body: vec![pr(format!("ch{}", nb), vec![v(0)])],
+                    exprs: vec![],
+                },
+                scopes: vec![],
+            });
+        }
         all.push((blocks, a));
     }
     let mut gs = vec![];
@@ -45,7 +70,18 @@ fn main() {
     let mut nontrivial = 0u64;
     let mut samples = vec![];
     let mut runs_total = 0u64;
+    let mut tight = 0u64;
     for (i, (blocks, a)) in all.iter().enumerate() {
+        // every third case: an iteration budget equal to the number of productive passes the
+        // program needs, so that the run must end in TooManyIterations in every order
+        let mut limits = limits;
+        if i >= n_corpus && i % 3 == 0 {
+            let probe = run_auth(blocks, a, limits, &keys, &mut rng);
+            if probe.iterations >= 2 && !matches!(probe.outcome, Outcome::Exec | Outcome::Limit(_) | Outcome::Other(_) | Outcome::Panic) {
+                limits = (limits.0, probe.iterations);
+                tight += 1;
+            }
+        }
         let mut observed: Vec<Outcome> = vec![];
         let reps = if i < n_corpus { m * 4 } else { m };
         for k in 0..reps {
@@ -118,10 +154,11 @@ fn main() {
     let hist_s: Vec<String> = hist.iter().map(|(k, v)| format!("{}: {}", jstr(k), v)).collect();
     let files_s: Vec<String> = files.iter().chain(kfiles.iter()).map(|p| jstr(p)).collect();
     println!(
-        "{{\"family\": \"determinism\", \"evaluations\": {}, \"corpus\": {}, \"runs_per_case\": {}, \"authorize_runs\": {}, \"distinct_nontrivial\": {}, \"observed_outcome_count_histogram\": {{{}}}, \"cases_with_several_outcomes\": {:?}, \"panics\": {:?}, \"samples\": [{}], \"kernel_sample\": {}, \"kernel_indices_stride\": {}, \"files\": [{}]}}",
+        "{{\"family\": \"determinism\", \"evaluations\": {}, \"corpus\": {}, \"runs_per_case\": {}, \"cases_with_tight_iteration_budget\": {}, \"authorize_runs\": {}, \"distinct_nontrivial\": {}, \"observed_outcome_count_histogram\": {{{}}}, \"cases_with_several_outcomes\": {:?}, \"panics\": {:?}, \"samples\": [{}], \"kernel_sample\": {}, \"kernel_indices_stride\": {}, \"files\": [{}]}}",
         all.len(),
         n_corpus,
         m,
+        tight,
         runs_total,
         nontrivial,
         hist_s.join(", "),
